@@ -101,7 +101,12 @@ fn run_case(sname: &str, reqs: &[Req], refs: &(Vec<Content>, Vec<usize>), offset
     let complete = ends.iter().filter(|e| **e <= offset).count();
     let w = NetWorld::new(NetCfg::default())?;
     let mut obs = w.connect()?;
-    obs.step(&w, &Req::store(op::SET, b"obs", b"mine", 9, 0, 0).opaque(0xeb1).bytes())?;
+    if let Err(e) = obs.step(&w, &Req::store(op::SET, b"obs", b"mine", 9, 0, 0).opaque(0xeb1).bytes()) {
+        return Ok(Res {
+            viol: Some(("observer|connection-lost".into(), format!("stream {} cut at {} fault {:?}: a fresh observer connection was dropped by the server: {}", sname, offset, fault, e))),
+            steps: 1,
+        });
+    }
     let mut c = if fault == Fault::ResetBeforeAccept { w.connect_nosettle()? } else { w.connect()? };
     let mut steps = 2u64;
     let name = format!("stream {} cut at byte {} of {} ({} complete requests) fault {:?}", sname, offset, bytes.len(), complete, fault);
@@ -147,7 +152,7 @@ fn run_case(sname: &str, reqs: &[Req], refs: &(Vec<Content>, Vec<usize>), offset
             let _ = c.step(&w, &bytes[..offset]);
             w.advance(30);
             // the observer stays active
-            obs.step(&w, &Req::bare(op::NOOP).opaque(0xeb2).bytes())?;
+            let _ = obs.step(&w, &Req::bare(op::NOOP).opaque(0xeb2).bytes());
             w.advance(31);
             c.pump();
             if !c.eof {
@@ -180,7 +185,9 @@ fn run_case(sname: &str, reqs: &[Req], refs: &(Vec<Content>, Vec<usize>), offset
     }
     // the observer: own item intact, own requests answered, sees exactly the completed prefix
     let got0 = obs.got.len();
-    obs.step(&w, &Req::get(op::GET, b"obs").opaque(0xeb3).bytes())?;
+    if let Err(e) = obs.step(&w, &Req::get(op::GET, b"obs").opaque(0xeb3).bytes()) {
+        problem = problem.or(Some(("observer|connection-lost".into(), format!("the observer's connection failed: {}", e))));
+    }
     let (or, _) = wire::split_responses(&obs.got[got0..]);
     match or.first() {
         Some(r) if r.status == st::OK && r.value() == b"mine" && r.opaque == 0xeb3 => {}
@@ -215,8 +222,8 @@ fn run_case(sname: &str, reqs: &[Req], refs: &(Vec<Content>, Vec<usize>), offset
     }
     // a fresh connection is served
     let mut fresh = w.connect()?;
-    fresh.step(&w, &Req::bare(op::NOOP).opaque(0xf5).bytes())?;
-    if wire::split_responses(&fresh.got).0.len() != 1 || !w.server_alive() {
+    let fresh_io = fresh.step(&w, &Req::bare(op::NOOP).opaque(0xf5).bytes());
+    if fresh_io.is_err() || wire::split_responses(&fresh.got).0.len() != 1 || !w.server_alive() {
         problem = problem.or(Some(("server|not-serving".into(), "a fresh connection is not served after the fault".into())));
     }
     Ok(Res { viol: problem.map(|(s, wh)| (s, format!("{}: {}", name, wh))), steps: steps + 2 })
